@@ -540,6 +540,15 @@ class _Expr:
             res = z3.If(t, res, v.t) if isinstance(node.op, ast.And) else z3.If(t, v.t, res)
         return [(s, V(ty, res))]
 
+    def infeasible(self, st, cond):
+        """True only when z3 refutes path condition AND cond (quantifier-free reading of the hypotheses is enough here)"""
+        sv = z3.Solver()
+        sv.set('timeout', 400)
+        for f in st.pc:
+            sv.add(f)
+        sv.add(cond)
+        return sv.check() == z3.unsat
+
     def dead(self, st):
         """Cheap syntactic infeasibility test (keeps the path count down)."""
         for f in st.pc[-2:]:
@@ -594,6 +603,10 @@ class _Expr:
             return vint(bit_and(l.t, r.t))
         if isinstance(op, ast.Mod) and lk == 'name':
             return V(NAME, fresh('fmt', Name))
+        hook = self.proc.locals.get('$binop_' + type(op).__name__.lower())
+        if hook is not None and lk == 'obj':
+            (st2, v), = hook(self, node, st, [l, r])      # user-defined operator of an object: model supplied by the contract
+            return v
         raise Unsupported(node, 'binop %s on %r, %r' % (type(op).__name__, l.ty, r.ty))
 
     def ev_Compare(self, node, st):
@@ -742,6 +755,9 @@ class _Calls:
             if f.id in st.env or f.id in self.proc.opaque_calls:
                 return self.call_opaque(node, st)
             raise Unsupported(node, 'call of %s: no contract' % text)
+        if isinstance(f, ast.Attribute) and text in self.proc.opaque_calls and isinstance(f.value, ast.Name) and \
+                f.value.id not in st.env and f.value.id not in self.proc.globals:
+            return self.call_opaque(node, st)          # Class.method(self, ...) with a model supplied by the contract
         if isinstance(f, ast.Attribute) and f.attr == 'get' and self.proc.locals.get('$instdict') and \
                 isinstance(f.value, ast.Attribute) and f.value.attr == '__dict__' and node.args and \
                 isinstance(node.args[0], ast.Constant) and isinstance(node.args[0].value, str) and not node.keywords:
@@ -959,6 +975,28 @@ class _Calls:
             return out
         raise Unsupported(node, 'getattr form')
 
+    def bi_issubclass(self, node, st):
+        out = []
+        cls = node.args[1]
+        names = [ast.unparse(e) for e in cls.elts] if isinstance(cls, ast.Tuple) else [ast.unparse(cls)]
+        for s, v in self.ev(node.args[0], st):
+            out.append((s, vbool(z3.Or(*[subtype(box(v), classconst(n)) for n in names]))))
+        return out
+
+    def bi_hasattr(self, node, st):
+        if len(node.args) != 2 or not isinstance(node.args[1], ast.Constant):
+            raise Unsupported(node, 'hasattr form')
+        out = []
+        for s, v in self.ev(node.args[0], st):
+            out.append((s, vbool(z3.Function('hasattr_' + node.args[1].value, Obj, z3.BoolSort())(box(v)))))
+        return out
+
+    def bi_type(self, node, st):
+        out = []
+        for s, (v,) in self.args1(node, st, 1):
+            out.append((s, vobj(typeof(box(v)))))
+        return out
+
     def bi_reversed(self, node, st):
         out = []
         for s, (v,) in self.args1(node, st, 1):
@@ -1126,6 +1164,8 @@ class _Contracts:
         res = self.fresh_value(proc.result, 'res_' + proc.key.split(':')[-1].split('.')[-1])
         c1 = Ctx(args, s.heap, pre, res=res.t if res.ty.kind != 'tup' else res)
         for label, f in _norm(proc.ensures(c1), 'post'):
+            if label in proc.not_assumed or 'literal' in label:
+                continue          # a clause recorded as not holding on the current tree is never used by callers
             s.assume(f)
         out.append((s, res))
         return out
@@ -1428,6 +1468,12 @@ class _Stmts:
             t = z3.simplify(self.truth(s, c))
             n0 = len(s.pc)
             a, b = s, s.clone()
+            if self.proc.locals.get('$prune') and not z3.is_false(t) and not z3.is_true(t):
+                # semantic pruning (opt-in): a branch whose condition contradicts the path condition is not executed
+                if self.infeasible(s, t):
+                    t = z3.BoolVal(False)
+                elif self.infeasible(s, z3.Not(t)):
+                    t = z3.BoolVal(True)
             a.assume(t); b.assume(z3.Not(t))
             a.trace.append('L%d:T' % stmt.lineno); b.trace.append('L%d:F' % stmt.lineno)
             ra = self.run(stmt.body, a) if not z3.is_false(t) else []
